@@ -20,6 +20,7 @@ class Space:
     def __init__(self):
         self.names, self.partner, self.R, self.gens = [], {}, None, None
         self.holo = set()      # holomorphic symbols: complex-valued, never to be conjugated
+        self.trunc = None      # (generator index, K): power-series mode - monomials of degree > K in that generator are dropped in products
 
     def declare(self, prefix, shape, complex_=False):
         """returns (names array, conj-names array or None) -- symbols exist after build()."""
@@ -183,7 +184,29 @@ class Fr:
         if isinstance(b, np.ndarray) and b.ndim > 0:
             return NotImplemented
         b = a._lift(b)
-        n = a.n * b.n
+        tr = a.sp.trunc if a.sp is not None else None
+        if tr is not None and len(a.n) > 1 and len(b.n) > 1:
+            # power-series mode: only multiply the parts whose degrees in s add up to <= K
+            i, K = tr
+            ga, gb = {}, {}
+            for m, c in a.n.terms():
+                ga.setdefault(m[i], {})[m] = c
+            for m, c in b.n.terms():
+                gb.setdefault(m[i], {})[m] = c
+            R_ = a.n.ring
+            n = R_.zero
+            pa = {k: R_.from_dict(v) for k, v in ga.items()}
+            pb = {k: R_.from_dict(v) for k, v in gb.items()}
+            for ka, xa in pa.items():
+                for kb, xb in pb.items():
+                    if ka + kb <= K:
+                        n = n + xa * xb
+        else:
+            n = a.n * b.n
+            if tr is not None and n != 0:
+                i, K = tr
+                if any(m[i] > K for m in n.keys()):
+                    n = n.ring.from_dict({m: c for m, c in n.terms() if m[i] <= K})
         if n == 0:
             return Fr(n, None, a.sp)
         return Fr(n, Fr._mulD(a.D, b.D), a.sp)
